@@ -63,6 +63,34 @@ type rowOne struct {
 	Only string
 }
 
+// Named types of the supported kinds, all of which print differently from
+// their underlying value (fmt.Stringer): the codec goes by kind.
+type (
+	enumI8  int8
+	flagB   bool
+	codeU16 uint16
+	label   string
+	pctF    float64
+)
+
+func (e enumI8) String() string  { return "enum#" + strconv.Itoa(int(e)) }
+func (f flagB) String() string   { return map[flagB]string{true: "on", false: "off"}[f] }
+func (c codeU16) String() string { return fmt.Sprintf("0x%04x", uint16(c)) }
+func (l label) String() string   { return "<" + string(l) + ">" }
+func (p pctF) String() string    { return strconv.FormatFloat(float64(p)*100, 'f', 1, 64) + "%" }
+
+type rowNamed struct {
+	Dur  time.Duration
+	Mon  time.Month
+	Day  time.Weekday
+	E    enumI8
+	F    flagB
+	C    codeU16
+	L    label
+	P    pctF
+	When time.Time `format:"2006-01-02"`
+}
+
 var hostileStrings = []string{`C:\u0026\data`, `a\u003cb\u003e`, `<b>&amp;</b>`, `back\nslash`, `\\`, `#N/A`, `#comment,with comma`, "", " ", "a,b", `say "hi"`, "  padded  ", "line\nbreak", "tab\there", "ünïcödé ✓", "\"", ",", "\n", "lone\rcr", "trailing,", "'single'", "0", "true", "#comment", "x\x00y", "\ufeffbom"}
 
 var stringAlphabet = []rune("abcXYZ019 ,\"\n;:-_/\\é")
@@ -137,6 +165,11 @@ func genRowAll(r *gen.Rand) *rowAll {
 	}
 }
 
+func genRowNamed(r *gen.Rand) *rowNamed {
+	return &rowNamed{Dur: time.Duration(randInt(r, 64)), Mon: time.Month(randInt(r, 64)), Day: time.Weekday(r.Range(-3, 9)), E: enumI8(randInt(r, 8)), F: flagB(r.Bool()),
+		C: codeU16(randUint(r, 16)), L: label(randString(r)), P: pctF(randFloat(r)), When: randTime(r, true)}
+}
+
 // sameRow compares two rows field by field: ints exact, floats by bits
 // (NaN == NaN), strings byte-wise, times by Equal and by formatted text.
 func sameRow(a, b any) string {
@@ -199,6 +232,17 @@ func csvFileHistory[T any](cc *run.Case, typ string, genRow func(*gen.Rand) *T, 
 	var model []*T
 	exists := false
 	var hist []string
+	// Sometimes the file exists with a length of zero before the first call (a
+	// placeholder someone created): WriteToFile and AppendOrWriteToCsvFile must
+	// treat it like a missing file. AppendToFile is not used on it while it is
+	// empty (with a header codec it is documented to add rows only).
+	emptyExisting := false
+	if r.Intn(4) == 0 {
+		if err := os.WriteFile(file, nil, 0o600); err == nil {
+			emptyExisting = true
+			hist = append(hist, "pre-existing zero-length file")
+		}
+	}
 	fail := func(msg string) bool {
 		cc.Viol("", fmt.Sprintf("Csv[%s] hasHeader=%v: %s", typ, hasHeader, msg), map[string]any{"type": typ, "hasHeader": hasHeader, "history": hist, "model_rows": describeRows(model)})
 		return false
@@ -215,6 +259,10 @@ func csvFileHistory[T any](cc *run.Case, typ string, genRow func(*gen.Rand) *T, 
 		if step == 1 && prevLen > 1 {
 			op, n = 0, r.Range(0, prevLen-1) // a longer file overwritten by a shorter one
 		}
+		if emptyExisting && op == 1 {
+			op = 2
+		}
+		emptyExisting = false
 		rows := make([]*T, n)
 		for i := range rows {
 			rows[i] = genRow(r)
@@ -451,6 +499,8 @@ func c11(ctx *run.Ctx) {
 		{"rowOne/header", func(cc *run.Case) bool {
 			return csvFileHistory(cc, "rowOne", func(r *gen.Rand) *rowOne { return &rowOne{randString(r)} }, true)
 		}},
+		{"rowNamed/header", func(cc *run.Case) bool { return csvFileHistory(cc, "rowNamed", genRowNamed, true) }},
+		{"rowNamed/noheader", func(cc *run.Case) bool { return csvFileHistory(cc, "rowNamed", genRowNamed, false) }},
 		{"rowNum/noheader", func(cc *run.Case) bool {
 			return csvFileHistory(cc, "rowNum", func(r *gen.Rand) *rowNum { return &rowNum{randInt(r, 64), randFloat(r), r.Bool()} }, false)
 		}},
